@@ -1,0 +1,33 @@
+//go:build verif
+
+// Contracts for the deductive verifier in /verif (govc). Comments only.
+
+package forwarder
+
+// ---- listener stacking and bandwidth limits (C20 L20.1, C08 L8.6) ----
+
+//@ func (*Listener).listen
+//@ trusted
+//@ pure
+//@ ensures result1 == nil ==> result0 != nil && !(result0 is *ratelimit.Listener) && !(result0 is *proxyproto.Listener)
+
+//@ func newListenerMetrics
+//@ trusted
+//@ pure
+
+// Listen: with a limit configured the listener is a ratelimit.Listener whose
+// transmit limiter has the read limit and whose receive limiter has the write
+// limit (0 = none); the PROXY-protocol listener, when enabled, sits below it
+// so the header is read from the raw socket.
+//@ func (*Listener).Listen
+//@ property C20 C08
+//@ requires l != nil
+//@ modifies *
+//@ ensures result == nil && (old(l.ReadLimit) > 0 || old(l.WriteLimit) > 0) ==> l.listener is *ratelimit.Listener
+//@ ensures result == nil && old(l.ReadLimit) > 0 ==> l.listener.(*ratelimit.Listener).txLimiter != nil && limRate(l.listener.(*ratelimit.Listener).txLimiter) == old(l.ReadLimit)
+//@ ensures result == nil && old(l.ReadLimit) <= 0 && old(l.WriteLimit) > 0 ==> l.listener.(*ratelimit.Listener).txLimiter == nil
+//@ ensures result == nil && old(l.WriteLimit) > 0 ==> l.listener.(*ratelimit.Listener).rxLimiter != nil && limRate(l.listener.(*ratelimit.Listener).rxLimiter) == old(l.WriteLimit)
+//@ ensures result == nil && old(l.WriteLimit) <= 0 && old(l.ReadLimit) > 0 ==> l.listener.(*ratelimit.Listener).rxLimiter == nil
+//@ ensures result == nil && old(l.ReadLimit) <= 0 && old(l.WriteLimit) <= 0 ==> !(l.listener is *ratelimit.Listener)
+//@ ensures result == nil && old(l.ProxyProtocolConfig) != nil && (old(l.ReadLimit) > 0 || old(l.WriteLimit) > 0) ==> l.listener.(*ratelimit.Listener).Listener is *proxyproto.Listener
+//@ ensures result == nil && old(l.ProxyProtocolConfig) != nil && old(l.ReadLimit) <= 0 && old(l.WriteLimit) <= 0 ==> l.listener is *proxyproto.Listener && l.listener.(*proxyproto.Listener).ReadHeaderTimeout == old(l.ProxyProtocolConfig.ReadHeaderTimeout)
